@@ -7,17 +7,21 @@
 
   STATUS.  Proved: the span of every statement the parser adds starts at the first byte of its
   mnemonic/directive token and ends with the last consumed operand token (on the parser step,
-  `PState.addStmt`: start proved, end `span_covers_operands` stated); addresses that hold no statement show nothing; a label
+  `PState.addStmt`: `span_starts_at_statement_token`, `span_covers_operands_holds`); the tokens one
+  `.fill` / `.blkw` / `.stringz` directive expands to all carry one span
+  (`multiword_share_span_holds`, on the preprocessor step); addresses that hold no statement show nothing; a label
   location resolves to `orig + line − 1 + offset` for EVERY origin (incl. ≥ 0x8000) whenever that
-  lies in `[orig, 0xFE00)`, and is refused otherwise.  Stated only (`def … : Prop`): the
-  whole-program facts that need an induction over `parseLoop` carrying span information
-  (`span_inside_source`, `multiword_share_span`) and the text-level round trip
-  `span_text_eq_statement` (needs C01's `render` and its stage 3).  These three are checked on
-  every run by the three-way correspondence (implementation vs. model spans vs. the generator's
-  own statement texts).
+  lies in `[orig, 0xFE00)`, and is refused otherwise; every statement span of an assembled image
+  starts and ends on a character boundary of the source, so it can be sliced and `assembly a`
+  never panics (`span_inside_source_holds`, `show_single_line_no_panic`; whole program, lemmas in
+  `Proofs/AsmSpan.lean`).  Stated only (`def … : Prop`) in full: the text-level round trip
+  `span_text_eq_statement` (needs C01's `render` and its stage 3; its `_partial` is proved).  It is
+  checked on every run by the three-way correspondence (implementation vs. model spans vs. the
+  generator's own statement texts).
 -/
 import Lace.Model.AsmSource
 import Lace.Proofs.DbgBasics
+import Lace.Proofs.AsmSpan
 namespace Lace.C17
 open Lace Lace.Asm Lace.Dbg Lace.Cmd
 
@@ -43,20 +47,140 @@ def span_covers_operands : Prop :=
       (tok.span.offs < e → a.span.offs + a.span.len = e) ∧
       (e ≤ tok.span.offs → a.span = tok.span)
 
+/-- `span_covers_operands`, proved: a direct unfolding of `PState.addStmt`. -/
+theorem span_covers_operands_holds : span_covers_operands := by
+  intro st tok stmt te
+  cases te with
+  | none =>
+    refine ⟨_, _, rfl, ?_, ?_⟩
+    · intro h
+      have h' : ¬ st.tokEnd ≤ tok.span.offs := by simpa [Option.getD] using h
+      show tok.span.offs + (if st.tokEnd ≤ tok.span.offs then tok.span.len else st.tokEnd - tok.span.offs) = _
+      rw [if_neg h']
+      simp only [Option.getD] at h ⊢
+      omega
+    · intro h
+      have h' : st.tokEnd ≤ tok.span.offs := h
+      show Span.mk tok.span.offs (if st.tokEnd ≤ tok.span.offs then tok.span.len else st.tokEnd - tok.span.offs) = _
+      rw [if_pos h']
+  | some e =>
+    refine ⟨_, _, rfl, ?_, ?_⟩
+    · intro h
+      have h' : ¬ e ≤ tok.span.offs := by simpa [Option.getD] using h
+      show tok.span.offs + (if e ≤ tok.span.offs then tok.span.len else e - tok.span.offs) = _
+      rw [if_neg h']
+      simp only [Option.getD] at h ⊢
+      omega
+    · intro h
+      have h' : e ≤ tok.span.offs := h
+      show Span.mk tok.span.offs (if e ≤ tok.span.offs then tok.span.len else e - tok.span.offs) = _
+      rw [if_pos h']
+
 /-- Every statement span of an assembled image lies inside the source on character boundaries, so
-the debugger's slice `&src[span]` never panics.  STATED. -/
+the debugger's slice `&src[span]` never panics.  Proved below: `span_inside_source_holds`. -/
 def span_inside_source : Prop :=
   ∀ (so : Bool) (tbl : SymTab) (src : List Char) (img : Image) (tbl' : SymTab),
     assemble so tbl src = (.ok img, tbl') →
     ∀ p ∈ img.spans, ∃ t, sliceBytes src p.1 p.2 = some t
 
+/-- `span_inside_source`, proved: both ends of every statement span are character boundaries of
+the source (`Proofs/AsmSpan.lean`: the invariant `Bdy` carried from the lexer's cursor through
+`preprocess`, `tok_end`, `add_stmt` and `backpatch`), and such a span can be sliced. -/
+theorem span_inside_source_holds : span_inside_source := by
+  intro so tbl src img tbl' h p hp
+  obtain ⟨h1, h2⟩ := assemble_spans_bdy (some so) tbl src img tbl' h p hp
+  exact sliceBytes_of_bdy h1 h2
+
+/-- Consequence for the debugger: whatever the address, `assembly a` on an assembled program never
+hits the slicing panic of `show_single_line` — it prints nothing or a piece of the source. -/
+theorem show_single_line_no_panic (so : Bool) (tbl : SymTab) (src : List Char) (img : Image)
+    (tbl' : SymTab) (h : assemble so tbl src = (.ok img, tbl')) (orig a : Word) :
+    (AsmSource.mk orig img.spans src).showSingleLine a ≠ .panic := by
+  unfold AsmSource.showSingleLine
+  cases hs : (AsmSource.mk orig img.spans src).statementAt a with
+  | none => simp
+  | some p =>
+    obtain ⟨o, l⟩ := p
+    have hmem : (o, l) ∈ img.spans := by
+      unfold AsmSource.statementAt at hs
+      split at hs
+      · cases hs
+      · exact List.mem_of_getElem? hs
+    obtain ⟨t, ht⟩ := span_inside_source_holds so tbl src img tbl' h (o, l) hmem
+    simp only [] at ht ⊢
+    rw [ht]
+    simp
+
 /-- The words of one `.stringz` / `.blkw` directive all carry the span of that directive (from
-the `.` of the directive to the end of its literal).  STATED. -/
+the `.` of the directive to the end of its literal), as does the single token of a `.fill`.
+Proved below: `multiword_share_span_holds`. -/
 def multiword_share_span : Prop :=
   ∀ (feat : Bool) (pos : Nat) (rest : List Char) (acc : List Token) (pos' : Nat) (rest' : List Char)
     (acc' : List Token),
     preprocessStep (some feat) pos rest acc = .more pos' rest' acc' →
     ∃ new, acc' = new ++ acc ∧ ∀ t₁ ∈ new, ∀ t₂ ∈ new, t₁.span = t₂.span
+
+/-- `multiword_share_span`, proved: case analysis over one iteration of `preprocess`; the tokens
+of a `.fill` / `.blkw` / `.stringz` are all built by `byteTok _ span` with the one joined span. -/
+theorem multiword_share_span_holds : multiword_share_span := by
+  intro feat pos rest acc pos' rest' acc' h
+  unfold preprocessStep at h
+  split at h
+  · cases h
+  · cases h
+  · split at h
+    · -- fill
+      split at h
+      · cases h
+      · cases h
+      · split at h
+        · cases h
+        · split at h
+          · cases h; exact ⟨[_], rfl, by simp⟩
+          · cases h; exact ⟨[_], rfl, by simp⟩
+          · cases h
+    · -- blkw
+      split at h
+      · cases h
+      · cases h
+      · split at h
+        · cases h
+        · split at h
+          · cases h
+            exact ⟨_, rfl, fun t₁ h₁ t₂ h₂ => by
+              rw [List.eq_of_mem_replicate h₁, List.eq_of_mem_replicate h₂]⟩
+          · cases h
+            exact ⟨_, rfl, fun t₁ h₁ t₂ h₂ => by
+              rw [List.eq_of_mem_replicate h₁, List.eq_of_mem_replicate h₂]⟩
+          · cases h
+    · -- stringz
+      split at h
+      · cases h
+      · cases h
+      · split at h
+        · split at h
+          · cases h
+          · split at h
+            · cases h
+            · cases h
+              rename_i span _ _ body _ _
+              refine ⟨byteTok 0 span :: ((unescape body).map (fun c => byteTok (charWord c) span)).reverse, by simp, ?_⟩
+              have key : ∀ t ∈ byteTok 0 span :: ((unescape body).map (fun c => byteTok (charWord c) span)).reverse, t.span = span := by
+                intro t ht
+                rcases List.mem_cons.mp ht with rfl | ht
+                · rfl
+                · rw [List.mem_reverse, List.mem_map] at ht
+                  obtain ⟨c, _, rfl⟩ := ht
+                  rfl
+              intro t₁ h₁ t₂ h₂
+              rw [key t₁ h₁, key t₂ h₂]
+        · cases h
+    · cases h; exact ⟨[_], rfl, by simp⟩
+    · cases h; exact ⟨[], rfl, by simp⟩
+    · cases h; exact ⟨[], rfl, by simp⟩
+    · cases h
+    · cases h
+    · cases h; exact ⟨[_], rfl, by simp⟩
 
 /-- Full text-level statement: the slice of a rendered program at statement `i`'s span is
 `renderStatement` of statement `i`.  Needs C01's `render` (stage 3); STATED as a schema over any
@@ -159,6 +283,18 @@ example (m : Machine) (ev : Machine → World → List Char → EvalResult) :
   rw [label_resolves _ _ _ _ _ 2#16 rfl (by decide) (by decide) (by decide) (by decide)]
   rfl
 
+/-- a program with a multi-byte comment, a `.stringz` with a multi-byte character and an
+instruction with operands: it assembles, and its spans are `halt`, the `.stringz` directive with
+its literal (twice: one character and the terminator) and `add r0 r0 #1` -/
+example : (match (assemble false [] "halt ; é\n.stringz \"é\" add r0 r0 #1".toList).1 with
+    | .ok img => decide (img.spans = [(0, 4), (10, 13), (10, 13), (24, 12)]) | _ => false) = true := by
+  decide +kernel
+example : sliceBytes "halt ; é\n.stringz \"é\" add r0 r0 #1".toList 10 13 = some ".stringz \"é\"".toList := by
+  decide
+/-- one iteration of `preprocess` on `.stringz "ab"`: three tokens, one span -/
+example : (match preprocessStep (some false) 0 ".stringz \"ab\"".toList [] with
+    | .more _ _ acc => decide (acc.map (·.span) = [⟨0, 13⟩, ⟨0, 13⟩, ⟨0, 13⟩]) | _ => false) = true := by
+  decide +kernel
 example : sliceBytes "halt\nadd r0 r0 #1\n".toList 0 4 = some "halt".toList := by decide
 example : sliceBytes "é".toList 1 1 = none := by decide
 example : (AsmSource.mk 0x3000#16 [(0, 4), (5, 12)] "halt\nadd r0 r0 #1\n".toList).showSingleLine 0x3001#16 =
